@@ -148,6 +148,10 @@ func (d *Driver) Snapshot(ctx context.Context) (migrate.RestoreFunc, error) {
 		return nil, err
 	}
 	return func(ctx context.Context) error {
+		// A statement that failed inside a transaction opened by its own file (BEGIN ... COMMIT)
+		// leaves it open, and the cleanup below cannot run in it. There is nothing to roll back
+		// otherwise, and the error is ignored.
+		_, _ = d.ExecContext(ctx, "ROLLBACK;")
 		for _, stmt := range []string{
 			"PRAGMA writable_schema = 1;",
 			"DELETE FROM sqlite_master WHERE type IN ('table', 'view', 'index', 'trigger');",
